@@ -140,3 +140,23 @@ func Extra() []bgp.PathAttributeInterface {
 	return out
 }
 
+// FullOpen is an OPEN that carries one capability of every kind the package can construct.
+func FullOpen() *bgp.BGPMessage {
+	caps := []bgp.ParameterCapabilityInterface{
+		bgp.NewCapMultiProtocol(bgp.RF_IPv4_UC), bgp.NewCapMultiProtocol(bgp.RF_IPv6_VPN), bgp.NewCapRouteRefresh(), bgp.NewCapExtendedMessage(),
+		bgp.NewCapCarryingLabelInfo(), bgp.NewCapExtendedNexthop([]*bgp.CapExtendedNexthopTuple{bgp.NewCapExtendedNexthopTuple(bgp.RF_IPv4_UC, bgp.AFI_IP6)}),
+		bgp.NewCapGracefulRestart(true, true, 120, []*bgp.CapGracefulRestartTuple{bgp.NewCapGracefulRestartTuple(bgp.RF_IPv4_UC, true), bgp.NewCapGracefulRestartTuple(bgp.RF_IPv6_UC, false)}),
+		bgp.NewCapFourOctetASNumber(4200000001),
+		bgp.NewCapAddPath([]*bgp.CapAddPathTuple{bgp.NewCapAddPathTuple(bgp.RF_IPv4_UC, bgp.BGP_ADD_PATH_BOTH), bgp.NewCapAddPathTuple(bgp.RF_IPv6_UC, bgp.BGP_ADD_PATH_RECEIVE)}),
+		bgp.NewCapEnhancedRouteRefresh(), bgp.NewCapRouteRefreshCisco(),
+		bgp.NewCapLongLivedGracefulRestart([]*bgp.CapLongLivedGracefulRestartTuple{bgp.NewCapLongLivedGracefulRestartTuple(bgp.RF_IPv4_UC, true, 3600)}),
+		bgp.NewCapFQDN("router1", "example.com"), bgp.NewCapSoftwareVersion("gobgp-verif"), bgp.NewCapUnknown(200, []byte{1, 2, 3}),
+	}
+	var params []bgp.OptionParameterInterface
+	for _, c := range caps {
+		params = append(params, bgp.NewOptionParameterCapability([]bgp.ParameterCapabilityInterface{c}))
+	}
+	m, _ := bgp.NewBGPOpenMessage(23456, 90, netip.MustParseAddr("10.0.0.9"), params)
+	return m
+}
+
